@@ -475,7 +475,68 @@ def received_is_not_the_label_rule(cx, rep, rid):
     rep.floor(rid, "reports made under a pushed property / index segment", n, 2)
 
 
+# ---------------------------------------------------------------------------------------------------- C09.23
+def enumerators_follow_star_rule(cx, rep, rid):
+    """What a module exports is what its own tables list AND what the modules it re-exports with `export *` export.
+    The single-name lookups (`get_type` / `get_value`) walk the `extends` list; a function that ENUMERATES a module's
+    exports (`typeof NS` of `import * as NS`) has to do the same, or moving a declaration behind an `export *`
+    changes the result (`export * from './a'` in a barrel: `typeof NS` lost a's members).  Decided: every function
+    that iterates one of the export tables of `SymbolsExportsModule` (a `for` / `iter()` / `keys()` / `values()` over a
+    Map-typed field of that type) reads the star list - the `Vec<file>` field of the same type - itself or in a
+    function of the compiler it calls (two levels)."""
+    F = cx.rs
+    adt = next((k for k in F.adts if k.endswith("SymbolsExportsModule")), None)
+    if adt is None:
+        rep.anchor_missing(rid, "SymbolsExportsModule")
+        return
+    tables = set()
+    stars = set()
+    for v in F.adts[adt]["variants"]:
+        for fl in v["fields"]:
+            if re.match(r"^std::collections::(?:HashMap|BTreeMap)<", fl["ty"] or ""):
+                tables.add(fl["name"])
+            if re.match(r"^std::vec::Vec<.*FileName>$", fl["ty"] or "") or re.match(r"^std::vec::Vec<BffFileName>$", fl["ty"] or ""):
+                stars.add(fl["name"])
+    rep.floor(rid, "export tables of SymbolsExportsModule", len(tables), 2)
+    rep.floor(rid, "star lists of SymbolsExportsModule", len(stars), 1)
+
+    def reads_star(g, depth=2, seen=None):
+        seen = seen if seen is not None else set()
+        if g in seen or g not in F.hir:
+            return False
+        seen.add(g)
+        for x in walk(F.hir[g]["body"]):
+            if x["k"] == "Field" and x.get("adt") == adt and x.get("name") in stars:
+                return True
+            if depth > 0 and x["k"] in ("Call", "MethodCall"):
+                g2 = F._callee_gid(CRATE, x.get("resolved") or x.get("callee") or "")
+                if g2 in F.hir and reads_star(g2, depth - 1, seen):
+                    return True
+        return False
+    n = 0
+    for g, f, t in _fn_trees(F):
+        enum_ = []
+        for x in walk(t["body"]):
+            if x["k"] == "MethodCall" and x.get("method") in ("iter", "keys", "values", "into_iter", "iter_mut", "drain") and x["recv"].get("k") == "Field" and x["recv"].get("adt") == adt and x["recv"].get("name") in tables:
+                enum_.append(x)
+            if x["k"] == "Call" and (x.get("callee") or "").endswith("IntoIterator::into_iter") and x.get("args"):
+                a = x["args"][0]
+                while a.get("k") in ("AddrOf", "DropTemps"):
+                    a = a["e"]
+                if a.get("k") == "Field" and a.get("adt") == adt and a.get("name") in tables:
+                    enum_.append(x)
+        if not enum_:
+            continue
+        n += 1
+        rep.ob(rid, "%s/follows-export-star" % f.name, reads_star(g),
+               "%s enumerates the export tables of a module (%s) and never reads its `export *` list: what the module re-exports with `export * from` is missing from the enumeration, so moving a declaration into a file behind an `export *` changes the result (`typeof NS` of `import * as NS` loses those members)" % (
+                   g, ", ".join(sorted({(e_["recv"]["name"] if e_["k"] == "MethodCall" else "?") for e_ in enum_}))),
+               "%s:%s" % (f.file, enum_[0]["line"]), sample={"fn": g})
+    rep.floor(rid, "functions that enumerate a module's export tables", n, 1)
+
+
 REGISTRY = {
+    "C09": [("C09.23", "a function that enumerates a module's exports also follows its `export *` list", enumerators_follow_star_rule)],
     "C03": [("C03.24", "the results of several child validators for the SAME input are combined by the deep merge, never by a shallow spread", same_input_merge_rule)],
     "C13": [("C13.14", "a method that fills the block buffer compresses a full block before it returns (the padding byte always fits)", fill_level_rule)],
     "C04": [("C04.14", "a comparator handed to a standard sort is a composition of key comparisons (no choice of comparison by a test on the pair)", comparator_rule)],
